@@ -140,12 +140,19 @@ def token_sequences(chk, stats, quick):
     aliases (valid, invalid, self-referential and mutually recursive): every text is either accepted or rejected
     with a TemplateError located on line 1 inside the text — never another exception."""
     import tplgen
-    reg = impl.registry(aliases={"Ok": "%Upper{%Name()}", "Bad": "%Nope()", "Self": "x%Self()", "A": "%B()", "B": "%A()", "Syn": "%Upper{"})
+    # the faulty spot of each alias body lies far to the right: an error located by its offset in the ALIAS text would fall
+    # outside the (short) template that uses the alias
+    pad = "p" * 40
+    reg = impl.registry(aliases={"Ok": "%Upper{%Name()}", "Bad": pad + "%Nope()", "Self": pad + "x%Self()", "A": pad + "%B()", "B": pad + "%A()",
+                                 "Syn": pad + "%Upper{"})
     comp = impl.compiler(reg)
     lex = list(tplgen.LEXEMES) + ["Name", "Upper", "Ok", "Self", "A", "Bad", "Syn", "Core", "é", "\t"]
     maxlen = 3 if quick else 4
     n = acc = rej = 0
-    for seq in tplgen.all_lexeme_sequences(maxlen, lex):
+    import itertools
+    alias_uses = [(pre + "%" + q + nm + "()" + suf,) for nm in ("Ok", "Bad", "Self", "A", "B", "Syn")
+                  for q in ("", "Alias.", "alias.") for (pre, suf) in (("", ""), ("ab", "c"), ("%Upper{", "}"), ("", "|%Upper()"), ("%Lower{x%Upper{", "}}"))]
+    for seq in itertools.chain(alias_uses, tplgen.all_lexeme_sequences(maxlen, lex)):
         text = "".join(seq)
         if "\n" in text or "\r" in text:
             continue
@@ -156,7 +163,7 @@ def token_sequences(chk, stats, quick):
         elif ok is False:
             rej += 1
             loc = err.location
-            if loc.line != 1 or not (0 <= loc.column <= len(text)):
+            if loc.line != 1 or not (0 <= loc.column <= len(text)) or loc.column + max(loc.length, 1) > len(text) + 6:
                 chk.oracle_fail("template error for %r located at line %d column %d, outside the text" % (text, loc.line, loc.column),
                                 {"mode": "compile", "template": text})
                 break
@@ -341,6 +348,12 @@ FIXED = [
     for n in ("a.txt", "bb.txt", "c c.dat", "noext", "d.txt") for (m, t, r) in (("name", "x%Name()", False), ("path", "moved/%Name()", True))
     if r or n != "d.txt"          # sub/d.txt is selected only with --recursive
 ] + [
+    # argument VALUES a tag refuses (an invalid regular expression, an unknown unit ...): refused when the template is compiled
+    {"mode": "name", "template": "%Replace('(', '_'){%Name()}", "mutated": "invalid argument value", "expect": 3},
+    {"mode": "name", "template": "%Remove('[a-'){%Name()}", "mutated": "invalid argument value", "expect": 3},
+    {"mode": "name", "template": "x%Name()", "filter": "%Replace('*x', 'y'){%Name()} != ''", "mutated": "invalid argument value", "expect": 3},
+    {"mode": "name", "template": "x%Name()", "sort": "%Remove('(?P<n'){%Name()}", "mutated": "invalid argument value", "expect": 3},
+    {"mode": "path", "template": "d/%Replace('a{2,1}', 'b'){%Name()}", "mutated": "invalid argument value", "expect": 3},
     # templates that consist of blanks only: the expression they render to is empty
     {"mode": "name", "template": "x%Name()", "filter": "\t", "mutated": "blank", "expect": 4},
     {"mode": "name", "template": "x%Name()", "filter": "\t \t", "mutated": "blank", "expect": 4},
